@@ -408,13 +408,101 @@ func (w *World) linear(v ssa.Value, depth int) lin {
 	return out
 }
 
+func isBool(t types.Type) bool {
+	b, ok := t.Underlying().(*types.Basic)
+	return ok && b.Info()&types.IsBoolean != 0
+}
+
+// lenStringTest recognises a comparison of len(<string>) with the constant 0 and
+// reports the string value and whether the condition (when true) says "empty".
+func lenStringTest(cond ssa.Value) (s ssa.Value, isEmpty bool, ok bool) {
+	bo, isB := cond.(*ssa.BinOp)
+	if !isB {
+		return nil, false, false
+	}
+	lenOf := func(v ssa.Value) ssa.Value {
+		for {
+			if c, ok := v.(*ssa.Convert); ok {
+				v = c.X
+				continue
+			}
+			break
+		}
+		c, ok := v.(*ssa.Call)
+		if !ok {
+			return nil
+		}
+		if b, ok := c.Call.Value.(*ssa.Builtin); !ok || b.Name() != "len" || len(c.Call.Args) != 1 {
+			return nil
+		}
+		if bt, ok := c.Call.Args[0].Type().Underlying().(*types.Basic); !ok || bt.Info()&types.IsString == 0 {
+			return nil
+		}
+		return c.Call.Args[0]
+	}
+	zero := func(v ssa.Value) bool { i, ok := ConstInt(v); return ok && i == 0 }
+	if sv := lenOf(bo.X); sv != nil && zero(bo.Y) { // len(s) op 0
+		switch bo.Op {
+		case token.EQL, token.LEQ:
+			return sv, true, true
+		case token.NEQ, token.GTR:
+			return sv, false, true
+		}
+	}
+	if sv := lenOf(bo.Y); sv != nil && zero(bo.X) { // 0 op len(s)
+		switch bo.Op {
+		case token.EQL, token.GEQ:
+			return sv, true, true
+		case token.NEQ, token.LSS:
+			return sv, false, true
+		}
+	}
+	return nil, false, false
+}
+
 // ---- facts ----------------------------------------------------------------------------
 
 // FactsOfIf returns the facts on the true and false edge of an If.
 func (w *World) FactsOfIf(i *ssa.If) (onTrue, onFalse Fact) {
 	b := i.Block()
-	te, fe := Edge{b, 0}, Edge{b, 1}
-	cond := i.Cond
+	return w.factsOfCond(i.Cond, Edge{b, 0}, Edge{b, 1})
+}
+
+// PhiConjuncts: for a boolean phi that go/ssa builds for `a && b` (all other
+// incoming values are the constant false) it returns the non-constant operands
+// and isAnd=true; for `a || b` (others constant true) isAnd=false. ok=false for
+// any other phi.
+func PhiConjuncts(v ssa.Value) (ops []ssa.Value, isAnd bool, ok bool) {
+	phi, isPhi := v.(*ssa.Phi)
+	if !isPhi || !isBool(phi.Type()) {
+		return nil, false, false
+	}
+	nTrue, nFalse := 0, 0
+	for _, e := range phi.Edges {
+		if c, isC := e.(*ssa.Const); isC && c.Value != nil && c.Value.Kind() == constant.Bool {
+			if constant.BoolVal(c.Value) {
+				nTrue++
+			} else {
+				nFalse++
+			}
+			continue
+		}
+		ops = append(ops, e)
+	}
+	if len(ops) == 0 || (nTrue > 0 && nFalse > 0) || nTrue+nFalse == 0 {
+		return nil, false, false
+	}
+	return ops, nFalse > 0, true
+}
+
+// derivedFacts: when the condition of an If is a short-circuit value held in a
+// local (`ok := a && b; if ok {…}`), the true edge implies every conjunct (and
+// the false edge of an `||` value implies the negation of every disjunct). The
+// short-circuit's own control flow contributes the remaining operands.
+func (w *World) derivedFacts(cond ssa.Value, te, fe Edge, depth int) []Fact {
+	if depth > 4 {
+		return nil
+	}
 	neg := false
 	for {
 		if u, ok := cond.(*ssa.UnOp); ok && u.Op == token.NOT {
@@ -427,8 +515,97 @@ func (w *World) FactsOfIf(i *ssa.If) (onTrue, onFalse Fact) {
 	if neg {
 		te, fe = fe, te
 	}
+	ops, isAnd, ok := PhiConjuncts(cond)
+	if !ok {
+		return nil
+	}
+	phi := cond.(*ssa.Phi)
+	var out []Fact
+	add := func(v ssa.Value) {
+		t, f := w.factsOfCond(v, te, fe)
+		if isAnd {
+			out = append(out, t) // value true on te
+		} else {
+			out = append(out, f) // value false on fe
+		}
+		out = append(out, w.derivedFacts(v, te, fe, depth+1)...)
+	}
+	for _, v := range ops {
+		add(v)
+	}
+	// the operands that decided the constant edges: the If conditions of the
+	// predecessor blocks that feed a constant into the phi
+	for i, e := range phi.Edges {
+		if _, isC := e.(*ssa.Const); !isC {
+			continue
+		}
+		pred := phi.Block().Preds[i]
+		if len(pred.Instrs) == 0 {
+			continue
+		}
+		if pi, ok := pred.Instrs[len(pred.Instrs)-1].(*ssa.If); ok && len(pred.Succs) == 2 {
+			// `a && b`: the constant false arrives over a's false branch;
+			// `a || b`: the constant true arrives over a's true branch
+			if (isAnd && pred.Succs[1] == phi.Block() && pred.Succs[0] != phi.Block()) ||
+				(!isAnd && pred.Succs[0] == phi.Block() && pred.Succs[1] != phi.Block()) {
+				add(pi.Cond)
+			}
+		}
+	}
+	return out
+}
+
+func (w *World) factsOfCond(cond ssa.Value, te, fe Edge) (onTrue, onFalse Fact) {
+	neg := false
+	for {
+		if u, ok := cond.(*ssa.UnOp); ok && u.Op == token.NOT {
+			neg = !neg
+			cond = u.X
+			continue
+		}
+		// `b == true`, `b != false`, `b == false`, `b != true` are the atom b / !b
+		if bo, ok := cond.(*ssa.BinOp); ok && (bo.Op == token.EQL || bo.Op == token.NEQ) && isBool(bo.X.Type()) {
+			var other ssa.Value
+			var cv *ssa.Const
+			if c, ok := bo.Y.(*ssa.Const); ok {
+				other, cv = bo.X, c
+			} else if c, ok := bo.X.(*ssa.Const); ok {
+				other, cv = bo.Y, c
+			}
+			if cv != nil && cv.Value != nil && cv.Value.Kind() == constant.Bool {
+				isTrue := constant.BoolVal(cv.Value)
+				if (bo.Op == token.EQL) != isTrue {
+					neg = !neg
+				}
+				cond = other
+				continue
+			}
+		}
+		break
+	}
+	if neg {
+		te, fe = fe, te
+	}
 	mk := func(e Edge, holds bool) Fact {
 		f := Fact{Edge: e, Cond: cond}
+		// `len(s) == 0` / `len(s) != 0` / `len(s) > 0` on a string is `s == ""` / `s != ""`
+		if sv, isEmpty, ok := lenStringTest(cond); ok {
+			if !holds {
+				isEmpty = !isEmpty
+			}
+			f.NonNum = true
+			f.LV, f.RV = sv, ssa.NewConst(constant.MakeString(""), sv.Type())
+			f.L, f.R = `""`, w.Term(sv)
+			if f.L > f.R {
+				f.L, f.R = f.R, f.L
+			}
+			if isEmpty {
+				f.Rel = "=="
+			} else {
+				f.Rel = "!="
+			}
+			return f
+		}
 		bo, isCmp := cond.(*ssa.BinOp)
 		if isCmp {
 			switch bo.Op {
@@ -541,6 +718,7 @@ func (w *World) Facts(fn *ssa.Function) []Fact {
 		if i, ok := b.Instrs[len(b.Instrs)-1].(*ssa.If); ok {
 			t, f := w.FactsOfIf(i)
 			out = append(out, t, f)
+			out = append(out, w.derivedFacts(i.Cond, Edge{b, 0}, Edge{b, 1}, 0)...)
 		}
 	}
 	return out
